@@ -263,6 +263,35 @@ func judge(evs []lcm.VerifEvent, parsed []porcupine.Event, kind string, seq int,
 		fail("log_roundtrip", sig, fmt.Sprintf("%d operations recorded, %d found after saving and parsing the log (largest process id %d)", invokes, calls, maxID))
 		return
 	}
+	// a failed write may still take effect later: its operation has to stay open until the end of the parsed history,
+	// i.e. its return comes after every call (operation ids are given in call order, the k-th invoke is operation k)
+	if wellFormed(evs) == "" {
+		ps := decode(parsed)
+		lastCall := -1
+		retPos := map[int]int{}
+		for i, p := range ps {
+			if p.call {
+				lastCall = i
+			} else {
+				retPos[int(p.id)] = i
+			}
+		}
+		opOf := map[uint64]int{} // process -> operation id of its outstanding invoke
+		k := 0
+		for _, e := range evs {
+			switch {
+			case e.Result == 0:
+				opOf[e.ID] = k
+				k++
+			case e.Result == 2 && e.Type == 1:
+				if pos, ok := retPos[opOf[e.ID]]; ok && pos < lastCall {
+					fail("failed_write_open_ended", "failed-write-closed-early", fmt.Sprintf("the failed write of process %d (operation %d) is given a return at position %d of the parsed history, before the call at position %d: it can no longer take effect later", e.ID, opOf[e.ID], pos, lastCall))
+					return
+				}
+				run.Count("c07:failed_write_checked_open_ended")
+			}
+		}
+	}
 	// the search is exponential in (concurrent + never-completed) operations: bound it
 	openNow, maxOpen, unknown := 0, 0, 0
 	for _, e := range evs {
